@@ -130,6 +130,7 @@ func (u *Unit) call(st *State, v ssa.Value, c *ssa.CallCommon, instr ssa.Instruc
 		args := u.argTVs(st, callee.Signature, c.Args, callee)
 		res := u.applyContract(st, con, args, instr, key)
 		u.setResults(st, v, sig, res)
+		u.callAssumesRes(st, key, sig, res)
 		return
 	}
 	if u.canInline(callee) {
@@ -326,6 +327,7 @@ func (u *Unit) invoke(st *State, v ssa.Value, c *ssa.CallCommon, instr ssa.Instr
 		args = append(args, u.argTVs(st, sig, c.Args, nil)...)
 		res := u.applyContract(st, con, args, instr, key)
 		u.setResults(st, v, sig, res)
+		u.callAssumesRes(st, key, sig, res)
 		return
 	}
 	// devirtualise over the implementations known to the program
@@ -566,6 +568,13 @@ func (u *Unit) appendOp(st *State, v ssa.Value, c *ssa.CallCommon, instr ssa.Ins
 // callAssumes: facts about external input the unit's contract assumes just before calls to a callee.
 func (u *Unit) callAssumes(st *State, key string) { u.callAssumesWhen(st, key, false) }
 
+// callAssumesRes: "assumeafter" facts may name the call's results r0, r1, ...
+func (u *Unit) callAssumesRes(st *State, key string, sig *types.Signature, res []Term) {
+	u.afterRes, u.afterSig = res, sig
+	u.callAssumesWhen(st, key, true)
+	u.afterRes, u.afterSig = nil, nil
+}
+
 func (u *Unit) callAssumesWhen(st *State, key string, after bool) {
 	if u.con == nil || u.curFn != u.top || u.s.specMode > 0 {
 		return
@@ -575,6 +584,9 @@ func (u *Unit) callAssumesWhen(st *State, key string, after bool) {
 			continue
 		}
 		env := u.newEnv(st, u.entry, u.top, u.eng.contractPkg(u.con))
+		for i, r := range u.afterRes {
+			env.vars[fmt.Sprintf("r%d", i)] = TV{T: r, Ty: u.afterSig.Results().At(i).Type()}
+		}
 		u.s.assume(implies(st.reach, env.evalBool(ca.Clause.Expr)))
 		u.note("assumed before calls to %s in %s (input well-formedness, not checked): %s", ca.Callee, u.con.Key, ca.Clause.Expr)
 	}
